@@ -42,6 +42,8 @@ ARG_SHAPES = [
     ("param", B("-", P("q1a"), P("a"))), ("param", B("*", P("q2_0"), P("pix"))), ("param", B("+", P("sqrt2"), P("p0"))),
     # parameter names that mean something to the host language or to SymPy
     ("param", B("+", P("lambda"), P("E"))), ("param", B("*", P("I"), B("-", P("S"), N("2")))), ("param", B("/", P("None"), P("is"))),
+    # parameter names that coincide with the names the serialiser gives to hoisted arrays (A0, A1, ...)
+    ("param", B("-", P("A0"), B("*", N("2"), P("A1")))),
     ("reg", Q(0)), ("reg", B("*", N("2"), Q(0))), ("reg", B("+", Q(0), Q(1))), ("reg", B("-", Q(1), B("*", Q(0), Q(3)))),
     ("reg", B("/", Q(1), Q(0))), ("reg", B("-", N("1"), Q(10))), ("reg", B("*", V("x"), Q(0))), ("reg", U("-", B("**", Q(0), N("2")))),
 ]
